@@ -5,6 +5,7 @@ package main
 import (
 	"fmt"
 	"go/token"
+	"go/types"
 	"sort"
 	"strings"
 
@@ -26,7 +27,21 @@ func init() {
 // stylerLiteral: constant string fields stored into a Styler composite literal in f.
 func stylerLiteralFields(f *ssa.Function) map[string]string {
 	out := map[string]string{}
+	found := false
 	eachInstr(f, func(in ssa.Instruction) {
+		// a Styler literal: every string field that is not set is the empty sequence
+		if a, isA := in.(*ssa.Alloc); isA && typeNameOf(a.Type()) == "Styler" {
+			if st, isS := a.Type().Underlying().(*types.Pointer).Elem().Underlying().(*types.Struct); isS && !found {
+				found = true
+				for i := 0; i < st.NumFields(); i++ {
+					if isStringType(st.Field(i).Type()) {
+						if _, set := out[st.Field(i).Name()]; !set {
+							out[st.Field(i).Name()] = ""
+						}
+					}
+				}
+			}
+		}
 		st, ok := in.(*ssa.Store)
 		if !ok {
 			return
@@ -37,6 +52,8 @@ func stylerLiteralFields(f *ssa.Function) map[string]string {
 		}
 		if s, isS := constString(st.Val); isS {
 			out[fieldName(fa)] = s
+		} else if isStringType(st.Val.Type()) {
+			out[fieldName(fa)] = "%non-constant%" // rejected by the check (contains a %)
 		}
 	})
 	return out
@@ -81,7 +98,8 @@ func ruleP18Sgr(p *Prog, r *Report) {
 	if r.anchorFn(rule, strip0, "StripAllAnsiSequences") {
 		ok := false
 		for _, ret := range returnsOf(strip0) {
-			if n, recv, args, _ := methodCall(retResult(ret, 0)); n == "ReplaceAllString" && len(args) == 2 {
+			// (with an empty replacement the literal and the expanding variant are the same)
+			if n, recv, args, _ := methodCall(retResult(ret, 0)); (n == "ReplaceAllString" || n == "ReplaceAllLiteralString") && len(args) == 2 {
 				if u, isU := strip(recv).(*ssa.UnOp); isU && u.X == ssa.Value(g) {
 					if s, isS := constString(args[1]); isS && s == "" && strip(args[0]) == ssa.Value(strip0.Params[0]) {
 						ok = true
@@ -317,8 +335,10 @@ func ruleP18Width(p *Prog, r *Report) {
 		if st, ok := in.(*ssa.Store); ok {
 			if ia, ok := st.Addr.(*ssa.IndexAddr); ok {
 				if _, fld := fieldLoad(ia.X); fld == "longestCell" {
-					if _, f2 := fieldLoad(st.Val); f2 == "len" {
-						okMax = true
+					if cand, isMax := runningMax(st); isMax {
+						if _, f2 := fieldLoad(cand); f2 == "len" {
+							okMax = true
+						}
 					}
 				}
 			}
